@@ -201,7 +201,12 @@ def nocache_script(rng, i):
     that references only its own proposals (by reference) or carries proposals by value."""
     names = ["A", "B", "C", "D", "E"]
     members = [{"name": n} for n in names + ["M0", "M1", "M2", "Z"]]
-    ops = [{"op": "create", "who": "A", "ext_senders": ["Z"]}]
+    # half of the time the service has rotated its key: its credential is listed twice in the external
+    # senders extension, old key first, and the observer signs with the new one (second entry)
+    rotated = (i % 2 == 1)
+    if rotated:
+        members += [{"name": "Zold", "identity_name": "Z"}]
+    ops = [{"op": "create", "who": "A", "ext_senders": (["Zold", "Z"] if rotated else ["Z"])}]
     for n in names[1:]:
         ops.append({"op": "kp", "who": n, "id": "k" + n})
     ops += [{"op": "commit", "who": "A", "id": "c0", "add": ["k" + n for n in names[1:]]}, {"op": "apply", "who": "A"}]
